@@ -238,6 +238,12 @@ impl Check for DiffCheck {
         }
         // one scenario per configuration; statement index of each checked stmt
         let entropy = rng.fork("entropy").next_u64();
+        // hook H3: variants may store tables in tiny chunks/segments so that a
+        // single input batch spans several chunks and scans span many segments
+        let var_dims: Option<(usize, usize)> = {
+            let mut d = rng.fork("dims");
+            if self.mode != DiffMode::Optimizer && d.chance(1, 2) { Some((1 + d.usize_below(4), *d.pick(&[1usize, 2, 3, 8, 64]))) } else { None }
+        };
         let build = |knobs: &Knobs, sim: &SimConfig| -> (Scenario, Vec<usize>) {
             let mut stmts = knobs.set_stmts();
             stmts.extend(setup_sql(&tables, chunk).into_iter().map(Stmt::new));
@@ -262,6 +268,9 @@ impl Check for DiffCheck {
             let mut sc = Scenario::single(stmts);
             sc.sim = sim.clone();
             sc.entropy = entropy;
+            if !(knobs == &ref_knobs && sim.policy == Policy::Canonical) {
+                sc.table_dims = var_dims;
+            }
             (sc, idxs)
         };
 
@@ -511,6 +520,7 @@ fn rehome_candidate(v: &Violation, aux: &DiffAux, ref_sim: &SimConfig) -> Option
         c.scenario = Scenario::single(stmts);
         c.scenario.sim = v.scenario.sim.clone();
         c.scenario.entropy = v.scenario.entropy;
+        c.scenario.table_dims = v.scenario.table_dims;
         c.stmt = idx;
         return Some(c);
     }
@@ -521,6 +531,7 @@ fn rehome_candidate(v: &Violation, aux: &DiffAux, ref_sim: &SimConfig) -> Option
     c.scenario = Scenario::single(stmts);
     c.scenario.sim = v.scenario.sim.clone();
     c.scenario.entropy = v.scenario.entropy;
+    c.scenario.table_dims = v.scenario.table_dims;
     c.stmt = idx;
     c.expect = e;
     Some(c)
